@@ -483,25 +483,33 @@ class C03(Prop):
     level_text = ("Lean 4 theorems: every LpcOps operator case (transcribed from eval_instruction / operator.c after the "
                   "fix commits) equals the reference semantics on all operands; op=, ++/--, index, range, lvalue forms; "
                   "constant folding and the grammar's rewrites are sound; literal encodings round-trip for all int64; "
-                  "switch table lookup equals the first matching arm.  Whole programs: generated typed programs in sibling "
+                  "switch table lookup equals the first matching arm; FULL statements (no excluded region) for stores through index "
+                  "lvalues incl. a zero byte into a buffer (lvset_agrees) and for all `<` ranges at all int64 bounds (range_agrees, "
+                  "extract_agrees: the regenerated saturating helper range_from_end () never overflows and selects the reference range).  "
+                  "Whole programs: generated typed programs in sibling "
                   "spellings run in the real driver and must equal the LpcOps-based evaluator exactly; the reference "
                   "evaluator judges every result")
     level_note = ("no compiler-correctness theorem for generate.c / icode.c (whole programs by correspondence only); reals are "
-                  "abstract in the theorems (FloatOps) and IEEE doubles in the driver; identity/aliasing of arrays and "
-                  "mappings, string switch tables (address order) and shift counts outside 0..63 are outside the model")
-    rule = ("cases = corpus + known-finding inputs + boundary list + seeded random cases from 18 families (binary/unary "
+                  "abstract in the theorems (FloatOps) and IEEE doubles in the driver; in-place fast paths keyed on reference counts "
+                  "(add_array, string join, absorb / compose_mapping) are compared on generated self / aliased operand programs only "
+                  "(no heap model); shift counts outside 0..63 are outside the model")
+    rule = ("cases = corpus + known-finding inputs + boundary list + seeded random cases from 19 families (binary/unary "
             "operators, op=, ++/--, index, range, index/range/char lvalues, integer / nested / string switches, loops, local / "
             "inherited / function-pointer calls, macros vs hand expansion, literals, zero-comparison rewrites, mapping algebra "
-            "around every growMap threshold, unit traces of the mapping table and of handle_define) over the boundary value set "
+            "around every growMap threshold, self-operand / aliased-operand / freshness forms of the container and string operators "
+            "(x op= x, x = x op x, a second reference held before, the alias as operand; local, global, array element, mapping value), "
+            "unit traces of the mapping table and of handle_define) over the boundary value set "
             "(int64 extremes, mixed int/float, empty and multibyte strings, containers across hash-table thresholds); each "
             "program has 2..12 sibling functions; 14 negative traces check the oracle on every run; a case is "
             "non-trivial when at least one function returns a value (not an error); distinct = distinct canonical trace")
-    not_covered = ["aliasing / identity of arrays and mappings (== on containers, shared references)",
-                   "string-label switch tables are modelled as equality lookup (the table is sorted by string address)",
+    not_covered = ["identity of arrays and mappings: == on containers, stores seen through a shared reference (b = a; a[0] = 1) - the "
+                   "reference evaluates by value, the generator only produces programs where LPC promises value semantics (self / aliased "
+                   "operands and freshness of results are generated and judged; there is no heap-level theorem)",
+                   "class members as operands of the self-operand forms; `&` / `|` on arrays",
                    "shift counts outside 0..63 (C undefined behaviour; the model uses the x86 masking)",
                    "sign of a floating zero produced by folded `0 - x`",
                    "`-=` on char lvalues (documented as supported, raises 'Bad left type to -=')",
-                   "mapping hash-table growth is exercised by correspondence only (no table-level theorem)"]
+                   "open findings (language definition debatable): num-opeq-real, addeq-num-str, optimistic-types"]
 
     def gen_extra(self, ctx, bdir):
         """T4-style tie: the condition under which handle_define (lib/lpc/lex.c) replaces a body identifier by the marker of
@@ -1689,7 +1697,10 @@ class C03(Prop):
             if op == "mul":      # compose with itself: values must be keys to give something
                 val = lambda e: ("bin", "add", I(ko), ("bin", "mod", ("bin", "add", e, I(1)), I(max(n, 1))))
             else:
-                val = lambda e: ("bin", "mul", e, I(3))
+                # values that own memory (a malloc'ed string, an array): `m += m` must not free what it copies
+                vk = rng.choice(["int", "str", "arr"])
+                val = {"int": lambda e: ("bin", "mul", e, I(3)), "str": lambda e: ("bin", "add", S(b"v"), e),
+                       "arr": lambda e: Arr([e, S(b"w")])}[vk]
             init = lambda h: [("expr", ("asg", h, Map([]))),
                               ("for", ("expr", ("asg", L(LI), I(0))), ("bin", "lt", L(LI), I(n)), ("expr", ("inc", "postinc", L(LI))),
                                ("expr", ("asg", ("idx", h, ("bin", "add", L(LI), I(ko))), val(L(LI)))))]
